@@ -1043,9 +1043,11 @@ func (val Value) HasIndex(key Value) Value {
 //
 // This method will panic if the receiver is not a set, or if it is a null set.
 func (val Value) HasElement(elem Value) Value {
-	if val.IsMarked() || elem.IsMarked() {
+	if val.IsMarked() || elem.ContainsMarked() {
+		// Set elements are never marked, so marks nested inside elem can't
+		// affect whether it's present; they transfer to the result instead.
 		val, valMarks := val.Unmark()
-		elem, elemMarks := elem.Unmark()
+		elem, elemMarks := elem.UnmarkDeep()
 		return val.HasElement(elem).WithMarks(valMarks, elemMarks)
 	}
 
